@@ -400,7 +400,18 @@ impl Prop for MixedExcitation {
         // half of the cases: the low-pass stream changes from frame to frame (it is a stream)
         let (lpf_alt, lpf_choice) = if t.chance(0.5) {
             let k = t.urange(1, 2);
-            let alt: Vec<Vec<f64>> = (0..k).map(|_| (0..order).map(|_| t.uniform(-0.5, 1.0)).collect()).collect();
+            // one alternative in four is the all-zero vector (+0.0 or -0.0 in every tap): a voiced
+            // frame without any periodic component - the pulse train keeps its phase through it
+            let alt: Vec<Vec<f64>> = (0..k)
+                .map(|_| {
+                    if t.chance(0.25) {
+                        let z = if t.chance(0.5) { 0.0 } else { -0.0 };
+                        vec![z; order]
+                    } else {
+                        (0..order).map(|_| t.uniform(-0.5, 1.0)).collect()
+                    }
+                })
+                .collect();
             let choice = (0..nframes).map(|_| t.below(k + 1)).collect();
             (alt, choice)
         } else {
